@@ -107,9 +107,15 @@ def cold_start(ctx, ops, label, runs=3, nthreads=4):
     ref = probes.run_probe(sys.executable, ops)
     if "results" not in ref:
         return True
+    vers = sorted({op[1] for op in ops if len(op) > 2 and op[1] in ("2", "3", "4")}, reverse=True) or [None]
     for r in range(runs):
-        rot = ops[r * 7 % max(1, len(ops)):] + ops[: r * 7 % max(1, len(ops))]
-        want = ref["results"][r * 7 % max(1, len(ops)):] + ref["results"][: r * 7 % max(1, len(ops))]
+        # the operations of ONE version first (rotating), so that every thread's first call hits the same lazily built state
+        first = vers[r % len(vers)]
+        idx = [i for i, op in enumerate(ops) if first is None or (len(op) > 2 and op[1] == first)]
+        k = (r // len(vers)) * 5 % max(1, len(idx))
+        idx = idx[k:] + idx[:k] + [i for i, op in enumerate(ops) if not (first is None or (len(op) > 2 and op[1] == first))]
+        rot = [ops[i] for i in idx]
+        want = [ref["results"][i] for i in idx]
         got = probes.run_probe(sys.executable, {"threads": nthreads, "switch": 1e-6, "ops": rot})
         ctx.count(len(ops))
         if "results" not in got:
